@@ -512,7 +512,16 @@ def main():
     if gate:
         broken.append('grep gate: ' + '; '.join(gate[:5]))
 
-    # 2. correspondence
+    # 2. correspondence, under an overall deadline: a library call that never returns (a deadlock, an endless loop)
+    #    must end as a reported violation, not as a check that hangs
+    import signal
+    deadline = int(os.environ.get('VERIF_DEADLINE', '1800' if tier == 'quick' else '21600'))
+
+    def _deadline(signum, frame):
+        raise BuildError('deadline exceeded: the correspondence run did not finish within %d s '
+                         '(a call of the implementation that never returns?)' % deadline)
+    signal.signal(signal.SIGALRM, _deadline)
+    signal.alarm(deadline)
     corr = None
     corr_err = None
     try:
@@ -530,6 +539,7 @@ def main():
             extra_viol = plugin.search(ctx, why) or []
         except BuildError as e:
             ctx.notes.append('search failed: ' + str(e)[:300])
+    signal.alarm(0)
 
     nrep = 0
     reported_classes = set()
